@@ -224,7 +224,24 @@ func (m *Model) RunLayout(s *Sink, rule string) {
 		check(fnKey(al)+"|the use statement carries the layout", m.Pos(al.Pos()), okProg, "UseStmt.Program = layout program", "the layout program is not attached to the use statement")
 	}
 	// the layout flag is set before applying; a layout that uses a layout is rejected
-	alp := m.PkgFuncOr("textwire", "applyLayoutToProgram", func(f *ssa.Function) bool { return callsNamed(f, "ApplyLayout", "ast.Program") })
+	// anchored on what it does: the (unique) library function that calls ApplyLayout, whatever its name or package
+	var alp *ssa.Function
+	if al != nil {
+		if node := m.CG.Nodes[al]; node != nil {
+			for _, e := range node.In {
+				if c := e.Caller.Func; m.InModule(c) && !isUserPkg(fnPkgPath(c)) && !isSynthetic(c) {
+					if alp != nil && alp != c {
+						alp = nil
+						break
+					}
+					alp = c
+				}
+			}
+		}
+	}
+	if alp == nil {
+		alp = m.PkgFunc("textwire", "applyLayoutToProgram")
+	}
 	if alp != nil {
 		var flag ssa.Instruction
 		var apply ssa.Instruction
